@@ -159,11 +159,12 @@ class PhasePredictor(QTable):
 
         index, dt = self._get_index_and_dt(t0)
         rphase = self["rphase"][index]
-        polynomial = self["poly"][index].copy()
-        polynomial.domain -= dt
+        # Substitute x -> x + dt (shifting the domain instead loses precision
+        # when its two ends round differently, e.g. for dt near 1024 s).
+        polynomial = self["poly"][index](Polynomial([dt, 1.0]))
         a = int(polynomial(0) // 1)
 
-        return (polynomial - a).convert(), pb.Phase(rphase + a)
+        return polynomial - a, pb.Phase(rphase + a)
 
     def f0(self, times, n=0):
         """Predict rotation frequency or its derivatives for given times."""
